@@ -369,7 +369,7 @@ type job struct {
 }
 
 func TestCheck(t *testing.T) {
-	r := vk.Start("C18", "model_checking", 100*time.Second, 14*time.Minute)
+	r := vk.Start("C18", "model_checking", 110*time.Second, 14*time.Minute)
 	if r.Replay != "" {
 		replay(t, r)
 		return
@@ -378,11 +378,18 @@ func TestCheck(t *testing.T) {
 	// nLean only the gated failing kind (a wrong signature); thorough adds n=6 for
 	// distinct keys and three one-repeated-pair patterns.
 	nFull := vk.Pick(r, 4, 5)
-	nLean := 5
-	nSel := vk.Pick(r, 0, 6)
+	nLean := vk.Pick(r, 4, 5)
+	nSel := vk.Pick(r, 5, 6)
 	kindsFull := []int{ms.SigWrong, ms.SigMalformed, ms.SigZeroR}
 	kindsLean := []int{ms.SigWrong}
+	// selected patterns beyond nLean: n=5 (quick) distinct keys and every single
+	// repeated pair; n=6 (thorough) distinct keys and three repeated pairs.
 	selected := map[string]bool{"[0 1 2 3 4 5]": true, "[0 0 1 2 3 4]": true, "[0 1 2 3 4 4]": true, "[0 1 2 3 4 0]": true}
+	for _, kp := range ms.KeyPatterns(5) {
+		if ms.NumIDs(kp) >= 4 {
+			selected[fmt.Sprint(kp)] = true
+		}
+	}
 	var jobs []job
 	for n := 1; n <= max(nFull, nLean, nSel); n++ {
 		kinds := kindsLean
@@ -390,7 +397,7 @@ func TestCheck(t *testing.T) {
 			kinds = kindsFull
 		}
 		for _, kp := range ms.KeyPatterns(n) {
-			if n > max(nFull, nLean) && !selected[fmt.Sprint(kp)] {
+			if n > max(nFull, nLean) && (n > nSel || !selected[fmt.Sprint(kp)]) {
 				continue
 			}
 			alpha := ms.SigAlphabet(ms.NumIDs(kp), kinds)
